@@ -177,6 +177,13 @@ Definition C01_e2e_example_vmess_ok := @E2EExamples.vm_flow_ok.
 (*  *)
 Definition C01_e2e_example_vmess := @E2EExamples.vm_flow.
 
+(* every target the handshake hands out (SOCKS5, CONNECT, absolute URI) is one the codecs accept, provided the stream consists of bytes *)
+Definition C01_e2e_handshake_target_acceptable := @handshake_target_acceptable.
+(* ... so for a stream of bytes the two address hypotheses of flow_ok are consequences *)
+Definition C01_e2e_flow_transparent_bytes := @c01_flow_transparent_bytes.
+
+Check @C01_e2e_handshake_target_acceptable.
+Check @C01_e2e_flow_transparent_bytes.
 Check @C01_e2e_flow_transparent.
 Check @C01_e2e_flow_ok_meaning.
 Check @C01_e2e_proto_ok_shadowsocks.
@@ -329,3 +336,5 @@ Print Assumptions C01_e2e_example_sslegacy_ok.
 Print Assumptions C01_e2e_example_sslegacy.
 Print Assumptions C01_e2e_example_vmess_ok.
 Print Assumptions C01_e2e_example_vmess.
+Print Assumptions C01_e2e_handshake_target_acceptable.
+Print Assumptions C01_e2e_flow_transparent_bytes.
